@@ -370,6 +370,12 @@ func (s *Sess) CreateURR(req *ie.IE) error {
 			MNOP: mInfo.HasMNOP(),
 		},
 	}
+	// PDRs may already name this URR (created earlier, or kept from before a removal)
+	for _, pdrInfo := range s.PDRIDs {
+		if _, ok := pdrInfo.RelatedURRIDs[id]; ok {
+			s.URRIDs[id].refPdrNum++
+		}
+	}
 
 	err = s.rnode.driver.CreateURR(s.LocalID, req)
 	if err != nil {
